@@ -579,4 +579,179 @@ Section Run.
             [rewrite (proj2 (Hother e2 c1 (ltac:(auto)))) in K1|rewrite (proj2 (Hother e2 c1 (ltac:(auto)))) in K1
             |rewrite (proj2 (Hrc c1 Hd)) in K1]; discriminate.
   Qed.
+
+  (* ---- the whole effect ---------------------------------------------------------------------- *)
+
+  (* a completion of the event: a unique completion itself, or the copy handed to
+     a coalesced duplicate of an EARLIER item of the same batch *)
+  Inductive eorigin (log0 ext : list prec) (c : comp) : Prop :=
+  | EOwn : origin log0 ext c -> eorigin log0 ext c
+  | ECopy : forall u, origin log0 ext u -> cp_res c = cp_res u -> cp_committed c = false ->
+            ps_cmd (cp_item c) = ps_cmd (cp_item u) -> keyed (ps_cmd (cp_item c)) = true ->
+            tagof u < tagof c -> eorigin log0 ext c.
+
+  Lemma perm_filter_split {A} (f : A -> bool) (l : list A) :
+    Permutation (filter (fun x => negb (f x)) l ++ filter f l) l.
+  Proof.
+    induction l as [|x l IH]; cbn [filter app]; [constructor|].
+    destruct (f x); cbn [negb app].
+    - apply Permutation_sym. apply Permutation_cons_app. apply Permutation_sym. exact IH.
+    - constructor. exact IH.
+  Qed.
+
+  Lemma sorted_map_pos (l : list psend) (pos : list nat) :
+    StronglySorted tag_lt l -> StronglySorted lt pos -> Forall (fun p => (p < length l)%nat) pos ->
+    StronglySorted tag_lt (map (fun p => nth p l dflt_psend) pos).
+  Proof.
+    intros Hl Hp. induction Hp as [|p pos Hp IH Hall]; intro Hb; cbn [map]; [constructor|].
+    inversion Hb; subst. constructor; [apply IH; assumption|].
+    rewrite Forall_forall in *. intros y Hy. apply in_map_iff in Hy. destruct Hy as [q [E Hq]]. subst y.
+    unfold tag_lt. apply sorted_nth; auto.
+  Qed.
+
+  Lemma expand_elems active b pos unique c :
+    coalesced active b pos -> map cp_item unique = ib_items b -> StronglySorted tag_lt active ->
+    In c (expandCompletions b unique) ->
+    In c unique \/
+    exists u, In u unique /\ cp_res c = cp_res u /\ cp_committed c = false
+              /\ ps_cmd (cp_item c) = ps_cmd (cp_item u) /\ keyed (ps_cmd (cp_item c)) = true
+              /\ tagof u < tagof c.
+  Proof.
+    intros C Hu Hs Hin.
+    destruct (expand_aligned _ _ _ _ C Hu) as [L Hn].
+    apply In_nth with (d := dflt_comp) in Hin. destruct Hin as [i [Hi E]]. rewrite L in Hi.
+    rewrite Hn in E by exact Hi. subst c. unfold expanded_at.
+    destruct (cz_owner _ _ _ C i Hi) as [p [P1 [P2 P3]]].
+    assert (Hlen : length unique = length pos).
+    { rewrite <- (map_length cp_item unique), Hu, (cz_items _ _ _ C), map_length. reflexivity. }
+    assert (Ho : (owner_of b i < length unique)%nat) by (rewrite Hlen; apply nth_error_Some; congruence).
+    set (u := nth (owner_of b i) unique dflt_comp).
+    assert (Hui : In u unique) by (apply nth_In; exact Ho).
+    assert (Eu : cp_item u = nth p active dflt_psend).
+    { unfold u. change dflt_psend with (cp_item dflt_comp) at 1.
+      rewrite <- (map_nth cp_item), Hu, (cz_items _ _ _ C).
+      rewrite (nth_indep _ _ (nth 0 active dflt_psend)) by (rewrite map_length, <- Hlen; exact Ho).
+      change (nth 0 active dflt_psend) with ((fun q => nth q active dflt_psend) 0%nat).
+      rewrite map_nth. rewrite (nth_error_nth _ _ 0%nat P1). reflexivity. }
+    rewrite (nth_error_nth _ _ 0%nat P1).
+    destruct (Nat.eq_dec p i) as [Epi|Epi].
+    - subst p. left. rewrite Nat.eqb_refl, andb_true_r. rewrite <- Eu.
+      clearbody u. destruct u as [ui ur ua uc ut]. cbn [cp_item cp_res cp_app cp_committed cp_trace] in *. exact Hui.
+    - destruct P3 as [P3|[P3 P4]]; [contradiction|].
+      right. exists u. assert (Hp : (p < i)%nat) by lia.
+      cbn [cp_res cp_committed cp_item]. unfold tagof. cbn [cp_item].
+      split; [exact Hui|]. split; [reflexivity|].
+      split; [replace (Nat.eqb p i) with false; [apply andb_false_r|symmetry; apply Nat.eqb_neq; lia]|].
+      apply same_eq in P4. unfold cmdat in P4, P3.
+      split; [rewrite Eu; symmetry; exact P4|]. split; [exact P3|].
+      rewrite Eu. apply sorted_nth; auto.
+  Qed.
+
+  Lemma app_eq_self {A} (l e : list A) : l ++ e = l -> e = [].
+  Proof.
+    intro H. assert (L : length (l ++ e) = length l) by (rewrite H; reflexivity).
+    rewrite app_length in L. destruct e; [reflexivity|cbn in L; lia].
+  Qed.
+
+  Lemma inactive_items items : map cp_item (inactive_comps items) = filter (fun it => negb (alive it)) items.
+  Proof. unfold inactive_comps. rewrite map_map. apply map_id. Qed.
+
+  Lemma inactive_origin log0 ext items c : In c (inactive_comps items) -> origin log0 ext c /\ cp_committed c = false.
+  Proof.
+    unfold inactive_comps. intro H. apply in_map_iff in H. destruct H as [it [E Hit]]. subst c.
+    apply filter_In in Hit. destruct Hit as [_ Hd]. apply negb_true_iff in Hd.
+    split; [|reflexivity]. apply OFail; [apply errcomp_fail; apply dead_nz; exact Hd|reflexivity].
+  Qed.
+
+  Theorem run_spec s e ev s' :
+    LogOK (slog s) -> StronglySorted tag_lt (ef_items e) ->
+    run St do_append do_nlookup hashf fp s e = (ev, s') ->
+    exists ext, slog s' = slog s ++ ext /\ ext_ok (slog s) ext (ef_items e)
+      /\ ev_seq ev = ef_seq e
+      /\ Permutation (map cp_item (ev_items ev)) (ef_items e)
+      /\ Forall (eorigin (slog s) ext) (ev_items ev)
+      /\ (forall c1 c2, In c1 (ev_items ev) -> In c2 (ev_items ev) ->
+             cp_committed c1 = true -> cp_committed c2 = true -> tagof c1 < tagof c2 ->
+             r_seq (cp_res c1) < r_seq (cp_res c2)).
+  Proof.
+    intros HL Hsorted H. unfold run in H.
+    destruct (is_nil (ef_items e)) eqn:En.
+    { inversion H; subst ev s'. exists []. rewrite app_nil_r. destruct (ef_items e); [|discriminate].
+      cbn [ev_seq ev_items map]. split; [reflexivity|]. split; [apply ext_ok_nil|]. split; [reflexivity|].
+      split; [constructor|]. split; [constructor|]. intros c1 c2 []. }
+    rewrite activeAppendItems_correct in H. unfold activeAppendItems_spec in H.
+    set (items := ef_items e) in *. set (active := filter alive items) in *.
+    assert (Hperm : forall x, map cp_item x = active ->
+                     Permutation (map cp_item (inactive_comps items ++ x)) items).
+    { intros x Hx. rewrite map_app, inactive_items, Hx. apply perm_filter_split. }
+    assert (Hasorted : StronglySorted tag_lt active) by (apply sorted_filter; exact Hsorted).
+    destruct (is_nil active) eqn:Ea.
+    { inversion H; subst ev s'. exists []. rewrite app_nil_r. cbn [ev_seq ev_items].
+      split; [reflexivity|]. split; [apply ext_ok_nil|]. split; [reflexivity|].
+      split.
+      { specialize (Hperm [] ltac:(destruct active; [reflexivity|discriminate])).
+        rewrite app_nil_r in Hperm. exact Hperm. }
+      split.
+      { apply Forall_forall. intros c Hc. apply EOwn. eapply inactive_origin; eauto. }
+      intros c1 c2 H1 _ K1. rewrite (proj2 (inactive_origin (slog s) [] _ _ H1)) in K1. discriminate. }
+    set (b := newIdempotentAppendBatch hashf fp active) in *.
+    destruct (nb_coalesced hashf fp active) as [pos C]. fold b in C.
+    set (X := ib_items b) in *.
+    assert (HXsorted : StronglySorted tag_lt X).
+    { unfold X. rewrite (cz_items _ _ _ C). apply sorted_map_pos; [exact Hasorted|apply (cz_sorted _ _ _ C)|apply (cz_bound _ _ _ C)]. }
+    assert (HXsub : forall it, In it X -> In it items).
+    { intros it Hit. unfold X in Hit. rewrite (cz_items _ _ _ C) in Hit. apply in_map_iff in Hit.
+      destruct Hit as [p [E Hp]]. subst it.
+      assert (Hb : (p < length active)%nat).
+      { pose proof (cz_bound _ _ _ C) as B. rewrite Forall_forall in B. apply B. exact Hp. }
+      pose proof (nth_In active dflt_psend Hb) as Hin. apply filter_In in Hin. tauto. }
+    destruct (do_append s (appendRequest X c29_initial_attempt)) as [rep s1] eqn:D.
+    destruct (Happ _ _ _ _ D) as [e1 [X1 [X2 X3]]]. cbn [appendRequest q_items] in X2, X3.
+    (* everything the event carries, from the unique completions *)
+    assert (Hfinish : forall ext unique,
+      map cp_item unique = X -> Forall (origin (slog s) ext) unique ->
+      (forall c1 c2, In c1 unique -> In c2 unique -> cp_committed c1 = true -> cp_committed c2 = true ->
+                     tagof c1 < tagof c2 -> r_seq (cp_res c1) < r_seq (cp_res c2)) ->
+      Permutation (map cp_item (inactive_comps items ++ expandCompletions b unique)) items
+      /\ Forall (eorigin (slog s) ext) (inactive_comps items ++ expandCompletions b unique)
+      /\ (forall c1 c2, In c1 (inactive_comps items ++ expandCompletions b unique) ->
+             In c2 (inactive_comps items ++ expandCompletions b unique) ->
+             cp_committed c1 = true -> cp_committed c2 = true -> tagof c1 < tagof c2 ->
+             r_seq (cp_res c1) < r_seq (cp_res c2))).
+    { intros ext unique Hu Ho Hord.
+      split; [apply Hperm; apply (expand_items _ _ _ _ C Hu)|].
+      assert (Hel : forall c, In c (expandCompletions b unique) ->
+                    eorigin (slog s) ext c /\ (cp_committed c = true -> In c unique)).
+      { intros c Hc. rewrite Forall_forall in Ho.
+        destruct (expand_elems _ _ _ _ _ C Hu Hasorted Hc) as [Hin|[u [U1 [U2 [U3 [U4 [U5 U6]]]]]]].
+        - split; [apply EOwn; apply Ho; exact Hin|auto].
+        - split; [eapply ECopy; eauto|]. intro K. congruence. }
+      split.
+      - apply Forall_forall. intros c Hc. apply in_app_iff in Hc. destruct Hc as [Hc|Hc].
+        + apply EOwn. eapply inactive_origin; eauto.
+        + apply Hel. exact Hc.
+      - intros c1 c2 H1 H2 K1 K2 Ht. apply in_app_iff in H1. apply in_app_iff in H2.
+        destruct H1 as [H1|H1]; [rewrite (proj2 (inactive_origin (slog s) ext _ _ H1)) in K1; discriminate|].
+        destruct H2 as [H2|H2]; [rewrite (proj2 (inactive_origin (slog s) ext _ _ H2)) in K2; discriminate|].
+        apply Hord; auto; apply Hel; auto. }
+    destruct rep as [rs|cls].
+    - inversion H; subst ev s'. clear H. cbn [ev_seq ev_items]. exists e1.
+      split; [exact X1|]. split; [eapply ext_ok_mono; [exact HXsub|exact X2]|]. split; [reflexivity|].
+      destruct X3 as [X3 X4].
+      apply Hfinish.
+      + apply arc_items.
+      + pose proof (arc_origin (slog s) [] _ _ _ _ e1 D X3) as Ho. exact Ho.
+      + intros c1 c2 H1 H2. eapply (arc_committed_sorted _ _ _ _ D); eauto.
+    - destruct (recoveriesAndRetry St do_append do_nlookup hashf s1 X cls) as [unique s2] eqn:R.
+      inversion H; subst ev s'. clear H. cbn [ev_seq ev_items].
+      assert (HL1 : LogOK (slog s1)) by (rewrite X1; eapply LogOK_ext; eauto).
+      destruct (recoveriesAndRetry_spec (slog s) e1 _ _ _ _ _ X1 HL1
+                  (fun A => app_eq_self _ _ (eq_trans (eq_sym X1) (A _ _ _ _ D))) X3 HXsorted R)
+        as [e2 [Y1 [Y2 [Y3 [Y4 Y5]]]]].
+      exists (e1 ++ e2). split; [rewrite Y1, X1, app_assoc; reflexivity|].
+      split.
+      { eapply ext_ok_mono; [exact HXsub|]. apply ext_ok_app; auto. rewrite <- X1. exact Y2. }
+      split; [reflexivity|].
+      apply Hfinish; auto.
+  Qed.
 End Run.
